@@ -80,6 +80,15 @@ Forwarded(h) ==
     mayAddAE  |-> Values(h, "accept-encoding") = <<>>,
     noUA      |-> Values(h, "user-agent") = <<>> ]
 
+(* ---------- the request target of a question about the server as a whole (RFC 9112 3.2.4) ---------- *)
+\* asked in asterisk-form ("OPTIONS *") or, by a proxy's client, in absolute-form with an empty path and no query
+\* ("OPTIONS http://host"): the origin is asked in asterisk-form, a next proxy in absolute-form with the empty path
+ServerWideForms == {"asterisk", "emptypath"}
+ServerWideRoutes(f) == IF f = "asterisk" THEN {"direct", "upstream", "mitm"} ELSE {"direct", "upstream"}
+HopTarget(f, route) == IF route = "upstream" THEN "http://origin.test" ELSE "*"
+ASSUME PrintT(ToJson([serverWide |-> {[form |-> f, route |-> r, want |-> HopTarget(f, r)] : f \in ServerWideForms, r \in {"direct", "upstream", "mitm"}}
+                                     \ {[form |-> "emptypath", route |-> "mitm", want |-> "*"]}]))
+
 VARIABLE sel
 \* a random subset need not contain every item: every item is always run alone as well
 Init == sel \in (IF Sample = 0 THEN Selections ELSE RandomSubset(Sample, Selections) \cup {{i} : i \in Items})
